@@ -77,10 +77,16 @@ def budget(tier):
 def _cases(draw):
     d = D(draw)
     cfg = base_config(d, otel=False)
+    state = {}
+
     def hook(dd, desc):
         desc.scalar_kinds = {"Money": "money", "DateTime": "datetime"}
+        state["dt_configured"] = dd.bool(0.7)
+        if not state["dt_configured"]:
+            # left unconfigured: annotated `Any` in the client (a name from `typing` used as an annotation)
+            desc.scalar_kinds.pop("DateTime")
         qf = desc.objects[desc.query]["fields"]
-        if "DateTime" in desc.scalars and dd.bool(0.6) and not any(f["name"] == "stampedAt" for f in qf):
+        if "DateTime" in desc.scalars and state["dt_configured"] and dd.bool(0.6) and not any(f["name"] == "stampedAt" for f in qf):
             # a root field of the externally typed scalar, selectable on its own (see SoloStamp below)
             qf.append({"name": "stampedAt", "type": dd.choice(["DateTime", "DateTime!", "[DateTime!]"]), "args": []})
 
@@ -94,9 +100,11 @@ def _cases(draw):
                                 else {"type": "MoneyStr", "parse": "parse_moneystr", "import": ".scalars_impl"})
             files["scalars_impl.py"] = SCALARS_IMPL
             dd.tag("scalar.money_" + style)
-        if "DateTime" in desc.scalars:
+        if "DateTime" in desc.scalars and state["dt_configured"]:
             scalars["DateTime"] = {"type": "datetime.datetime"}
             dd.tag("scalar.datetime")
+        elif "DateTime" in desc.scalars:
+            dd.tag("scalar.unconfigured_any")
         cfg2 = {"scalars": scalars} if scalars else {}
         if files:
             cfg2["files_to_include"] = ["scalars_impl.py"]
@@ -198,23 +206,21 @@ def dump(value):
 
 
 def norm_hints(method, pkg, other_name):
-    """resolved type hints of a client method as strings, package names normalised"""
+    """resolved type hints of a client method as strings, package names normalised.  The namespace is what a type
+    checker sees: the client module's own globals plus the imports of its `if TYPE_CHECKING:` blocks, EXECUTED here
+    (an import there that does not resolve raises - e.g. a wrong relative level); nothing else is added, so names like
+    typing.Any or datetime have to be resolvable from the client module itself."""
     mod = sys.modules[method.__func__.__module__] if hasattr(method, "__func__") else sys.modules[method.__module__]
     ns = dict(vars(mod))
-    for fn in os.listdir(os.path.dirname(pkg.__file__)):
-        if fn.endswith(".py") and fn not in ("__init__.py",):
-            try:
-                # only what the package's modules DEFINE themselves (classes, aliases such as `MoneyStr = str` - the
-                # local imports the plugin documents as deferred); whatever they import from outside the package
-                # (typing.Any, datetime, ...) has to be resolvable from the client module's own globals
-                m = importlib.import_module(pkg.__name__ + "." + fn[:-3])
-                foreign = set()
-                for node in ast.walk(ast.parse(open(m.__file__).read())):
-                    if isinstance(node, ast.ImportFrom) and node.level == 0 or isinstance(node, ast.Import):
-                        foreign.update((a.asname or a.name).split(".")[0] for a in node.names)
-                ns.update({k: v for k, v in vars(m).items() if isinstance(v, type) and k not in foreign})
-            except Exception:  # noqa: BLE001
-                pass
+    tree = ast.parse(open(mod.__file__).read())
+    for node in tree.body:
+        if isinstance(node, ast.If) and "TYPE_CHECKING" in ast.dump(node.test):
+            for stmt in node.body:
+                if isinstance(stmt, (ast.ImportFrom, ast.Import)):
+                    code = compile(ast.Module(body=[stmt], type_ignores=[]), mod.__file__, "exec")
+                    scope = {"__name__": mod.__name__, "__package__": mod.__package__}
+                    exec(code, scope)  # noqa: S102  generated import statement of the package under test
+                    ns.update({k: v for k, v in scope.items() if not k.startswith("__")})
     f = method.__func__ if hasattr(method, "__func__") else method
     hints = typing.get_type_hints(f, globalns=ns)
     return {k: repr(v).replace(pkg.__name__ + ".", "PKG.") for k, v in hints.items()}
